@@ -16,6 +16,20 @@ Definition query_same a b := same i_query a b.
 Definition fragment_same a b := same i_fragment a b.
 Definition authority_same a b := user_same a b && password_same a b && host_same a b && port_same a b.
 
+(** the host as it is written in the stored authority: after the last '@', a bracketed
+    literal up to its ']' or else everything before the first ':' *)
+Definition netloc_hosttext (nl : str) : str :=
+  let '(_, _, hp) := rpartition 64 nl in
+  match hp with
+  | 91 :: _ => let '(inner, found, _) := partition 93 hp in if found then inner ++ [93] else hp
+  | _ => let '(h, _, _) := partition 58 hp in h
+  end.
+Definition hosttext_same (a b : val) : bool :=
+  match nthv i_netloc a, nthv i_netloc b with
+  | WStr x, WStr y => str_eqb (netloc_hosttext x) (netloc_hosttext y)
+  | _, _ => true
+  end.
+
 (** kinds: 0 with_scheme, 1 with_user, 2 with_password, 3 with_host, 4 with_port,
     5 with_fragment, 6 query operation, 7 with_path/with_name/with_suffix (keep flags),
     8 / joinpath parent, 9 origin, 10 relative.
@@ -29,12 +43,12 @@ Definition c11_pred (args : list val) : bool :=
           | 0 => authority_same a b && path_same a b && query_same a b && fragment_same a b
           | 1 => (if arg_none then is_none i_raw_user b && is_none i_raw_password b
                   else password_same a b)
-                 && scheme_same a b && host_same a b && port_same a b && path_same a b && query_same a b && fragment_same a b
+                 && scheme_same a b && host_same a b && hosttext_same a b && port_same a b && path_same a b && query_same a b && fragment_same a b
           | 2 => (if arg_none then is_none i_raw_password b else true)
-                 && scheme_same a b && user_same a b && host_same a b && port_same a b && path_same a b && query_same a b && fragment_same a b
+                 && scheme_same a b && user_same a b && host_same a b && hosttext_same a b && port_same a b && path_same a b && query_same a b && fragment_same a b
           | 3 => scheme_same a b && user_same a b && password_same a b && port_same a b && path_same a b && query_same a b && fragment_same a b
           | 4 => (if arg_none then is_none i_explicit_port b else true)
-                 && scheme_same a b && user_same a b && password_same a b && host_same a b && path_same a b && query_same a b && fragment_same a b
+                 && scheme_same a b && user_same a b && password_same a b && host_same a b && hosttext_same a b && path_same a b && query_same a b && fragment_same a b
           | 5 => (if arg_none then is_str i_fragment b [] else true)
                  && scheme_same a b && authority_same a b && path_same a b && query_same a b
           | 6 => scheme_same a b && authority_same a b && path_same a b && fragment_same a b
@@ -42,7 +56,7 @@ Definition c11_pred (args : list val) : bool :=
                  && (if kq then query_same a b else is_str i_query b [])
                  && (if kf then fragment_same a b else is_str i_fragment b [])
           | 8 => scheme_same a b && authority_same a b && is_str i_query b [] && is_str i_fragment b []
-          | 9 => scheme_same a b && host_same a b && port_same a b
+          | 9 => scheme_same a b && host_same a b && hosttext_same a b && port_same a b
                  && is_none i_raw_user b && is_none i_raw_password b
                  && is_str i_raw_path b [47] && is_str i_query b [] && is_str i_fragment b []
           | 10 => is_str i_scheme b [] && is_str i_netloc b [] && is_none i_raw_host b && is_none i_explicit_port b
